@@ -57,6 +57,13 @@ def run_trace(job):
         last13 = [None]
         peer_is_host = role.startswith("equipment")
 
+        def wfc():
+            """What waitfor_communicating() reports right now (zero patience)."""
+            try:
+                return bool(h.waitfor_communicating(0.0))
+            except Exception:  # noqa: BLE001
+                return False
+
         def data_frames(inbound_sys):
             out = []
             for f in ep.link.take_frames():
@@ -175,7 +182,7 @@ def run_trace(job):
                     if h.communication_state.current.name in ("WAIT_CRA", "WAIT_DELAY"):
                         # an attempt cycle is pending but no timer is running: nothing will ever retry
                         obs = {"frames": data_frames(None), "comm": 0, "cb": 0, "dt": "no-timer-running",
-                               "cm": h.communication_state.current.name}
+                               "cm": h.communication_state.current.name, "wfc": wfc()}
                         rec["steps"].append({"inp": inp, "obs": obs, "t": round(s.now, 3)})
                     continue
                 # advance until a timer of the establish-communications cycle fired (other timers, e.g. T6 of a
@@ -219,7 +226,8 @@ def run_trace(job):
             s.settle()
             if arm["snap"] is not None:
                 sn = arm["snap"]
-                obs = {"frames": pre + sn["frames"], "comm": sn["comm"] - c0, "cb": sn["cb"] - b0, "dt": dtc, "cm": sn["cm"]}
+                obs = {"frames": pre + sn["frames"], "comm": sn["comm"] - c0, "cb": sn["cb"] - b0, "dt": dtc, "cm": sn["cm"],
+                       "wfc": sn["cm"] == "COMMUNICATING"}      # not sampled inside the send: the state at that moment decides
                 rec["steps"].append({"inp": inp, "obs": obs, "t": round(sn["now"], 3), "instant_next": True})
                 comm_base, cb_base = sn["comm"], sn["cb"]
                 arm["snap"] = None
@@ -233,13 +241,13 @@ def run_trace(job):
                     # armed, but no S1F13 went out in this step: the peer's S1F14 of the next step is sent the ordinary way
                     arm["ack"] = None
                 obs = {"frames": pre + data_frames(inbound), "comm": len(comm) - c0, "cb": len(cbs) - b0, "dt": dtc,
-                       "cm": h.communication_state.current.name}
+                       "cm": h.communication_state.current.name, "wfc": wfc()}
                 rec["steps"].append({"inp": inp, "obs": obs, "t": round(s.now, 3)})
         # end of history: a pending attempt cycle must have its timer running (else nothing ever retries)
         cmf = h.communication_state.current.name
         ndf = s.next_deadline()
         if fact["en"] and cmf in ("WAIT_CRA", "WAIT_DELAY") and (ndf is None or ndf - s.now > 1e5):
-            rec["steps"].append({"inp": {"k": "Timer"}, "obs": {"frames": data_frames(None), "comm": 0, "cb": 0, "dt": "no-timer-running", "cm": cmf},
+            rec["steps"].append({"inp": {"k": "Timer"}, "obs": {"frames": data_frames(None), "comm": 0, "cb": 0, "dt": "no-timer-running", "cm": cmf, "wfc": wfc()},
                                  "t": round(s.now, 3)})
         rec["handler_errors"] = ep.link.handler_errors[:3]
 
